@@ -1,5 +1,7 @@
 """A persistable listener that takes a Bundle of the process at every RUNNING / WAITING entry and whenever it is told of a pause (module level so
 that it is loadable when the bundle is restored)."""
+import copy
+
 import plumpy
 
 BUNDLES = []
@@ -9,12 +11,12 @@ SAVING = [False]
 class Saver(plumpy.ProcessListener):
     def on_process_running(self, process):
         if SAVING[0]:
-            BUNDLES.append((len(process._sc_trace), plumpy.Bundle(process)))
+            BUNDLES.append((len(process._sc_trace), plumpy.Bundle(process), copy.deepcopy(dict(process.outputs))))
 
     def on_process_waiting(self, process):
         if SAVING[0]:
-            BUNDLES.append((len(process._sc_trace), plumpy.Bundle(process)))
+            BUNDLES.append((len(process._sc_trace), plumpy.Bundle(process), copy.deepcopy(dict(process.outputs))))
 
     def on_process_paused(self, process):
         if SAVING[0]:
-            BUNDLES.append((len(process._sc_trace), plumpy.Bundle(process)))
+            BUNDLES.append((len(process._sc_trace), plumpy.Bundle(process), copy.deepcopy(dict(process.outputs))))
